@@ -268,9 +268,11 @@ def _record_analysis(spec):
                     args = [np.ascontiguousarray(x), np.ascontiguousarray(y), starts, L, w, om]
                     if order >= 1:
                         args.append(core._build_Q(L, order))
-                    if spec.get("refdef") or (int(ref.K[j]) * L <= 400000 and int(ref.K[j]) <= 64):
-                        # bins averaged over few segments (cheap: an independent reference for every detrend order), and
-                        # ill-conditioned records: the reference is the definition itself, accumulated in long double
+                    if spec.get("refdef") or (order >= 1 and int(ref.K[j]) * L <= 400000 and int(ref.K[j]) <= 64):
+                        # few-segment bins with polynomial detrending (cheap, and well conditioned once the trend is gone): the reference is
+                        # the definition itself, accumulated in long double, with its own least-squares detrending - independent of the
+                        # library's projection basis.  Orders -1 and 0 keep the kernel as reference (bound to the definition by C01):
+                        # with undetrended offsets or 1e17 dynamic range the Goertzel recurrence has a rounding budget of its own.
                         from .drivers.C01 import _definition
                         mxx, myy, mr, mi, m2 = _definition(x, y, starts, L, w, om, order, "csd")
                     else:
